@@ -60,6 +60,31 @@ def find_fn(src, clean, name, scope=(0, None)):
         return line_start, start_kw, open_idx, close_idx
     raise KeyError(name)
 
+def find_impl(clean, name):
+    """span of the FIRST inherent `impl <name> {` block that contains the wanted fn is chosen by caller"""
+    spans = []
+    for m in re.finditer(r'\bimpl\s+' + re.escape(name) + r'\s*\{', clean):
+        bo = clean.index('{', m.start()); spans.append((bo, match_brace(clean, bo)))
+    return spans
+
+def find_struct(src, clean, name):
+    m = re.search(r'\bstruct\s+' + re.escape(name) + r'\b', clean)
+    bo = clean.index('{', m.start()); bc = match_brace(clean, bo)
+    return 'struct ' + name + ' ' + src[bo:bc + 1]
+
+def find_assoc_const(src, clean, span, name):
+    m = re.search(r'\bconst\s+' + re.escape(name) + r'\s*:', clean[span[0]:span[1]])
+    a = span[0] + m.start(); e = clean.index(';', a)
+    # a const initialiser may contain braces; take up to the ';' at depth 0
+    depth = 0; k = a
+    while True:
+        c = clean[k]
+        if c == '{': depth += 1
+        elif c == '}': depth -= 1
+        elif c == ';' and depth == 0: break
+        k += 1
+    return src[a:k + 1]
+
 def loops(clean, open_idx, close_idx):
     """ordinals of while/for/loop headers inside a body, in textual order -> (kw_idx, body_open, body_close)"""
     res = []
@@ -71,7 +96,13 @@ def loops(clean, open_idx, close_idx):
 
 def extract(path, spec):
     src = open(path).read(); clean = strip_tokens(src)
-    line_start, kw, bo, bc = find_fn(src, clean, spec['fn'])
+    scope = (0, None)
+    if spec.get('impl'):
+        for sp in find_impl(clean, spec['impl']):
+            try:
+                find_fn(src, clean, spec['fn'], sp); scope = sp; break
+            except KeyError: pass
+    line_start, kw, bo, bc = find_fn(src, clean, spec['fn'], scope)
     header = src[kw:bo].rstrip()            # from `fn` (drops pub/const?/attrs/docs — recorded as drops)
     quals = src[line_start:kw]
     keep_quals = ' '.join(q for q in re.findall(r'\b(const|unsafe)\b', quals))
@@ -93,6 +124,13 @@ def extract(path, spec):
         if lp.get('body_end'): inserts.append((lbc - bo, '    proof {\n' + lp['body_end'].rstrip() + '\n        }\n    '))
         if lp.get('body_start'): inserts.append((lbo - bo + 1, '\n        proof {\n' + lp['body_start'].rstrip() + '\n        }'))
     if spec.get('entry'): inserts.append((1, '\n    proof {\n' + spec['entry'].rstrip() + '\n    }'))
+    if spec.get('before_tail'):
+        depth = 0; last = None
+        for k, ch in enumerate(cbody):
+            if ch == '{': depth += 1
+            elif ch == '}': depth -= 1
+            elif ch == ';' and depth == 1: last = k
+        inserts.append(((last + 1) if last is not None else 1, '\n        proof {\n' + spec['before_tail'].rstrip() + '\n        }'))
     for off, text in sorted(inserts, reverse=True):
         body = body[:off] + text + body[off:]
     item = (keep_quals + ' ' if keep_quals else '') + header + contract + body
@@ -102,6 +140,15 @@ def extract(path, spec):
 if __name__ == '__main__':
     spec = tomllib.load(open(sys.argv[1], 'rb'))
     items, metas = [], []
+    src0 = open(spec['file']).read(); clean0 = strip_tokens(src0)
+    for st in spec.get('struct', []):
+        items.append('#[allow(non_camel_case_types)]\n#[derive(Copy, Clone)]\n' + find_struct(src0, clean0, st['name']))
+    impl_items = {}
+    for c in spec.get('const', []):
+        for sp in find_impl(clean0, c['impl']):
+            try:
+                impl_items.setdefault(c['impl'], []).append('    ' + find_assoc_const(src0, clean0, sp, c['name'])); break
+            except AttributeError: pass
     for f in spec['extract']:
         if f.get('mode') == 'assume':
             src = open(spec['file']).read(); clean = strip_tokens(src)
@@ -112,7 +159,13 @@ if __name__ == '__main__':
             items.append('#[verifier::external_body]\n' + (quals + ' ' if quals else '') + header + '\n    requires\n' + f['requires'] + '\n    ensures\n' + f['ensures'] + '\n{ unimplemented!() }')
             metas.append({'fn': f['fn'], 'mode': 'assume', 'discharged_by': f.get('discharged_by')})
         else:
-            it, me = extract(spec['file'], f); items.append(it); metas.append(me)
+            it, me = extract(spec['file'], f)
+            if f.get('impl'): impl_items.setdefault(f['impl'], []).append(it)
+            else: items.append(it)
+            metas.append(me)
+    for name, its in impl_items.items():
+        extra = spec.get('impl_prelude', {}).get(name, '')
+        items.append('impl ' + name + ' {\n' + extra + '\n' + '\n\n'.join(its) + '\n}')
     out = 'use vstd::prelude::*;\nverus! {\n' + spec.get('prelude', '') + '\n' + '\n\n'.join(items) + '\n}\nfn main() {}\n'
     open(sys.argv[2], 'w').write(out)
     print(json.dumps(metas, indent=1))
